@@ -11,14 +11,24 @@ R41b last definition wins: _register_macro overwrites program.macros[name] uncon
 R41c a started macro may not be edited or removed: _validate_liveedit_method raises MethodEditError
      for a macro with run_started_count > 0 that is missing, retyped, or whose source differs, and it
      is on the must-call path of every merge.
-R41d detector completeness (direct call lines): in the search behind MacroNode.macro_calling_macro, inside the loop over the
+R41d detector completeness (every call line of the body, nested ones included - the loop ranges over all descendants): in the search behind MacroNode.macro_calling_macro, inside the loop over the
      macro's children a path through another macro is returned only under a test of that path (non-empty / contains the
      target); an unconditional `return [child] + <search of child>` lets the *first* Call macro line decide, so a recursive
      call on a later line is not found and the call does not fail. The search also carries a visited set (or otherwise
      never re-enters a macro it is searching), so call cycles that do not involve the target terminate.
 R41e detector freshness: macro_calling_macro does not hand out a stored result (no return value that is an attribute of the
      node): which macros a name is bound to changes with every (re)definition, so a path kept from an earlier call goes stale.
-Does not decide call lines nested inside blocks or Watches of a macro body (the search looks at direct children only).
+R41i executing a `Macro:` line defines the macro every time: every path through visit_MacroNode calls _register_macro (not only
+     while the node's is_registered flag is unset - the flag survives the reset of a body that runs again).
+R41j where a macro was defined is not where it runs: the ended-block test the interpreter applies to every body line
+     (_is_in_ended_block) stops its walk up the AST at the enclosing MacroNode - the blocks around the definition may have ended
+     long ago while the body is running for a caller elsewhere; the caller's own blocks are on the execution path.
+R41f a call that had to wait runs the definition that is current when it starts: in visit_CallMacroNode the look-up of the macro
+     by name is re-done after every tick the call waited (the look-up is inside the waiting loop, or follows it).
+R41g every definition that has started is protected from edits, not only the latest of each name: the started-macro loop of
+     _validate_liveedit_method ranges over all MacroNodes of the old program (a call of a superseded definition can be in progress).
+R41h a new call waits for the watch/alarm bodies of the previous call that are executing: resetting the body cuts their
+     remaining lines off (they then ran fewer times than the macro was called).
 """
 from __future__ import annotations
 
@@ -137,7 +147,9 @@ def run(ctx) -> None:
     ctx.analysed(vm)
     gm = cfg_of(vm)
     regcalls = [n for n in gm.nodes if node_calls(n, "_register_macro")]
-    if regcalls and all(any(a.endswith("is_registered") and not pol for a, pol in facts_at(gm, n)) for n in regcalls):
+    # registered unconditionally (R41i), or at least whenever the definition has not been registered yet
+    uncond = bool(regcalls) and gm.path_to_exit_avoiding(None, lambda n: node_calls(n, "_register_macro")) is None
+    if uncond or (regcalls and all(any(a.endswith("is_registered") and not pol for a, pol in facts_at(gm, n)) for n in regcalls)):
         ctx.ok("R41b", "visit_MacroNode registers every not-yet-registered definition")
     else:
         ctx.fail("R41b", vm, vm.node, "visit_MacroNode registers every not-yet-registered definition", "a definition may never be registered")
@@ -171,6 +183,115 @@ def run(ctx) -> None:
     else:
         ctx.fail("R41c", cms, cms.node, "every merge validates the edit", "merge without validation")
 
+    # ---- R41g: the started-macro loop ranges over every MacroNode of the old program
+    ctx.rule("R41g", "every started definition is protected, not only the latest of each name")
+    from ..util import local_single_defs as _lsd, expand_local as _xl
+    vdefs = _lsd(vl)
+    loops_g = [n for n in gv.nodes if n.kind == "for" and any("run_started_count" in norm(x) for x in ast.walk(n.ast))]
+    if not loops_g:
+        raise AnchorError("_validate_liveedit_method: loop over the started macros not found")
+    for lpg in loops_g:
+        it = _xl(lpg.ast.iter, vdefs)
+        if isinstance(it, ast.Name):
+            ann = [st.value for st in ast.walk(vl.node) if isinstance(st, ast.AnnAssign) and isinstance(st.target, ast.Name)
+                   and st.target.id == it.id and st.value is not None]
+            if len(ann) == 1:
+                it = ann[0]
+        txt = norm(it)
+        inst = "_validate_liveedit_method: the started-macro loop covers all MacroNodes of the running program"
+        if ".macros" in txt and "get_all_nodes" not in txt and "get_child_nodes" not in txt:
+            ctx.fail("R41g", vl, lpg.ast, inst, f"the loop ranges over `{txt[:70]}` - the registry holds the latest definition of each name only: while "
+                     "a call of an earlier definition is in progress (started from a Watch before the name was re-defined) a live edit may "
+                     "change or remove its not yet reached lines")
+        elif ("get_all_nodes" in txt or "get_child_nodes" in txt) and "MacroNode" in txt:
+            ctx.ok("R41g", inst)
+        else:
+            raise AnchorError(f"_validate_liveedit_method: iterable of the started-macro loop not recognised: {txt[:80]}")
+    # ---- R41f / R41h in visit_CallMacroNode
+    ctx.rule("R41f", "the macro is looked up again after every tick the call waited")
+    ctx.rule("R41h", "a new call waits for executing watch/alarm bodies of the previous call")
+    lookups = [n for n in g.nodes if n.kind == "stmt" and isinstance(n.ast, ast.Assign) and isinstance(n.ast.value, ast.Call)
+               and call_attr(n.ast.value) == "get" and norm(n.ast.value.func.value).endswith(".macros")]
+    walks_ = [n for n in g.nodes if n.ast is not None and any(call_attr(c) == "_visit_children" for c in n.calls())]
+    yields_ = [n for n in g.nodes if n.kind == "stmt" and isinstance(n.ast, ast.Expr) and isinstance(n.ast.value, ast.Yield)
+               and walks_ and g.search([n.id], lambda x: x.id == walks_[0].id, follow_exc=False) is not None
+               and not any(g.dominates(w_, n) for w_ in walks_)]
+    if not lookups or not walks_:
+        raise AnchorError("visit_CallMacroNode: macro look-up / body walk not found")
+    inst = "visit_CallMacroNode: no path from a waiting yield to the body walk avoids the look-up by name"
+    stale_path = None
+    for y in yields_:
+        pth = g.search([y.id], lambda x: x.id == walks_[0].id, blocked=lambda x: any(x.id == l.id for l in lookups), follow_exc=False)
+        if pth is not None:
+            stale_path = pth
+    if stale_path is None:
+        ctx.ok("R41f", inst, {"rule": "R41f", "waiting_yields": len(yields_)})
+    else:
+        ctx.fail("R41f", f, stale_path[0].ast, inst, "the macro node is looked up before the call waits and used after it: a call that had to "
+                 "wait for another caller's call runs the body it saw before the name was re-defined", stale_path)
+    resets_ = [n for n in g.nodes if n.ast is not None and any(call_attr(c) == "reset_runtime_state" for c in n.calls())]
+    inst = "visit_CallMacroNode: the reset of the body is reached only when no watch/alarm body of the previous call is executing"
+    def _handler_test(t) -> bool:
+        return any(isinstance(c, ast.Call) and ("handler" in (call_attr(c) or "") or "interrupt" in (call_attr(c) or "")) for c in ast.walk(t))
+    okh = bool(resets_) and all(any(_handler_test(t) and not pol for t, pol in g.conditions_at(r)) or
+                                any(_handler_test(tn.ast) and g.dominates(tn, r) and g.search([(tn.id, "T")], lambda x, r=r: x.id == r.id,
+                                    blocked=lambda x: x.kind == "stmt" and isinstance(x.ast, ast.Expr) and isinstance(x.ast.value, ast.Yield),
+                                    follow_exc=False) is None for tn in g.nodes if tn.kind == "test")
+                                for r in resets_)
+    if okh:
+        ctx.ok("R41h", inst)
+    else:
+        ctx.fail("R41h", f, resets_[0].ast if resets_ else f.node, inst, "a second call resets the body while a Watch of the first call is in the "
+                 "middle of its own body: the remaining lines of that body never run - `Macro: A / Mark: a / Watch: .. / Mark: w1 / Wait / "
+                 "Mark: w2` called twice runs w2 once")
+
+    # ---- R41i
+    ctx.rule("R41i", "a Macro line that is executed again defines the macro again")
+    vm = prog.func(f"{PI}.visit_MacroNode")
+    ctx.analysed(vm)
+    gm = cfg_of(vm)
+    inst = "visit_MacroNode: every path registers the macro"
+    pth = gm.path_to_exit_avoiding(None, lambda n: node_calls(n, "_register_macro"))
+    if pth is None:
+        ctx.ok("R41i", inst)
+    else:
+        ctx.fail("R41i", vm, vm.node, inst, "the registration is skipped on a path (the is_registered flag is kept when a body is reset): a "
+                 "`Macro:` line in a macro or alarm body that runs a second time does not supersede a definition of the same name made in "
+                 "between, and the following call runs the older body", pth)
+
+    # ---- R41j
+    ctx.rule("R41j", "the ended-block test does not look past the enclosing macro definition")
+    eb = prog.func(f"{PI}._is_in_ended_block")
+    ctx.analysed(eb)
+    scans = []
+    for x in ast.walk(eb.node):
+        if isinstance(x, (ast.For, ast.comprehension)) and ".parents" in norm(x.iter):
+            scope = x if isinstance(x, ast.For) else None
+            scans.append((x, scope))
+    if not scans:
+        raise AnchorError("_is_in_ended_block: no scan of <node>.parents")
+    from ..model import parent_map as _pm
+    pm_ = _pm(eb.node)
+    for x, scope in scans:
+        inst = f"_is_in_ended_block: the scan of `{norm(x.iter)}` stops at a MacroNode"
+        if scope is None:
+            # generator expression: find the enclosing expression
+            enc = pm_.get(id(x))
+            txt = norm(enc) if enc is not None else ""
+        else:
+            txt = norm(scope)
+        if "block_ended" not in txt:
+            continue
+        stops = "MacroNode" in txt and scope is not None and any(
+            isinstance(st, ast.If) and "MacroNode" in norm(st.test) and any(isinstance(y, (ast.Return, ast.Break)) for y in st.body)
+            for st in scope.body)
+        if stops:
+            ctx.ok("R41j", inst)
+        else:
+            ctx.fail("R41j", eb, x.iter, inst, "an ended Block around the *definition* of a macro counts as an ended block around its body lines: "
+                     "once that Block has ended every later call of the macro skips all its lines, is recorded as started and completed, "
+                     "and no error is raised")
+
     # ---- R41d / R41e
     ctx.rule("R41d", "the recursion search follows every Call macro line")
     ctx.rule("R41e", "the recursion search result is computed at call time")
@@ -195,11 +316,39 @@ def run(ctx) -> None:
         ctx.analysed(fn)
         gfn = cfg_of(fn)
         lsd = local_single_defs(fn)
-        for lp in [n for n in gfn.nodes if n.kind == "for" and "children" in norm(n.ast.iter)]:
+        helpers = {h.name: h for h in ast.walk(fn.node) if isinstance(h, ast.FunctionDef) and h is not fn.node}
+
+        def _helper_descends(it) -> bool:
+            """iter is `h(<node>)` with h a nested function that collects call lines and recurses into children that have children"""
+            if not (isinstance(it, ast.Call) and isinstance(it.func, ast.Name) and it.func.id in helpers):
+                return False
+            h = helpers[it.func.id]
+            rec = any(isinstance(c, ast.Call) and isinstance(c.func, ast.Name) and c.func.id == h.name for c in ast.walk(h))
+            tests = any(isinstance(x, ast.Call) and isinstance(x.func, ast.Name) and x.func.id == "isinstance" and "NodeWithChildren" in norm(x)
+                        for x in ast.walk(h))
+            over_children = any(isinstance(x, ast.For) and "children" in norm(x.iter) for x in ast.walk(h))
+            return rec and tests and over_children
+        for lp in [n for n in gfn.nodes if n.kind == "for" and ("children" in norm(n.ast.iter) or "get_child_nodes" in norm(n.ast.iter)
+                                                               or "get_all_nodes" in norm(n.ast.iter) or _helper_descends(n.ast.iter))]:
             if not any(isinstance(x, ast.Call) and isinstance(x.func, ast.Name) and x.func.id == "isinstance" and "CallMacroNode" in norm(x)
                        for x in ast.walk(lp.ast)):
                 continue
             n_loops += 1
+            # nested call lines: the loop ranges over all descendants, or the search descends into children that have children
+            it = lp.ast.iter
+            deep = (isinstance(it, ast.Call) and call_attr(it) == "get_child_nodes" and any(
+                k.arg == "recursive" and isinstance(k.value, ast.Constant) and k.value.value is True for k in it.keywords)
+                or (isinstance(it, ast.Call) and call_attr(it) == "get_child_nodes" and it.args and isinstance(it.args[0], ast.Constant) and it.args[0].value is True)
+                or (isinstance(it, ast.Call) and call_attr(it) == "get_all_nodes"))
+            descends = any(isinstance(x, ast.Call) and isinstance(x.func, ast.Name) and x.func.id == "isinstance" and "NodeWithChildren" in norm(x)
+                           for x in ast.walk(lp.ast)) and any(isinstance(c, ast.Call) and call_attr(c) in names for c in ast.walk(lp.ast))
+            inst_n = f"{fn.short}: the search covers Call macro lines nested in blocks, watches and alarms of the body"
+            if deep or descends or _helper_descends(it):
+                ctx.ok("R41d", inst_n)
+            else:
+                ctx.fail("R41d", fn, lp.ast, inst_n, f"the loop ranges over `{norm(it)}` - the direct children only: `Macro: A` whose body has a Watch, "
+                         "Alarm or Block containing `Call macro: A` is not recognised as recursive, the call does not fail and A starts "
+                         "again and again (Watch) or waits for its own outer call for ever (Block)")
             body_ids = gfn.search([d for d, l in gfn.succ[lp.id] if l == "loop"], lambda n: False, collect=True,
                                   blocked=lambda n: n.id == lp.id)
             for rn in [gfn.nodes[i] for i in body_ids if gfn.nodes[i].kind == "stmt" and isinstance(gfn.nodes[i].ast, ast.Return)]:
